@@ -161,7 +161,7 @@ end Nervus.Crash
 
 namespace Nervus.Crash
 
-variable {p0 : PImg} {live lo : Nat} {allowed covered : List Nat}
+variable {p0 : PImg} {live lo : Nat} {allowed covered : List Nat} {top : Bool}
 
 /-! ### block judgements of the three parts -/
 
@@ -169,21 +169,21 @@ def segJs (m : Mem) : List Nat := (List.range (cNData m - 1)).map (· + 1)
 
 theorem pblk_segA (m : Mem) (ps0 : PS) (hsk : SameKey p0.hdr ps0.pm) (hnp : lo ≤ min ps0.bm ps0.pm.nextPage) :
     (segA m ps0).2.2 = min ps0.bm ps0.pm.nextPage ∧
-    ∃ nd', PBlk p0 live allowed covered lo lo ps0 (segA m ps0).1
+    ∃ nd', PBlk p0 live allowed covered top lo lo ps0 (segA m ps0).1
       ((0 :: (segJs m ++ [cNData m])).map (fun j => PEff.segPart (min ps0.bm ps0.pm.nextPage) j (cNData m + 1) (cEdges m))) nd'
       (segA m ps0).2.1 := by
-  obtain ⟨b0, hk0, _⟩ := pblk_alloc (p0 := p0) (live := live) (lo := lo) (allowed := allowed) (covered := covered) ps0 hsk hnp
+  obtain ⟨b0, hk0, _⟩ := pblk_alloc (p0 := p0) (live := live) (lo := lo) (allowed := allowed) (covered := covered) (top := top) ps0 hsk hnp
   generalize hmf : min ps0.bm ps0.pm.nextPage = mf at b0 hk0 hnp
-  have bw1 := pblk_write (p0 := p0) (live := live) (lo := lo) (allowed := allowed) (covered := covered) b0.sk b0.np
+  have bw1 := pblk_write (p0 := p0) (live := live) (lo := lo) (allowed := allowed) (covered := covered) (top := top) b0.sk b0.np
     (.segPart mf 0 (cNData m + 1) (cEdges m)) (allocA ps0).2.2 ⟨hnp, by omega⟩
-  have b2 := pblk_segParts (p0 := p0) (live := live) (lo := lo) (allowed := allowed) (covered := covered) mf (cNData m + 1) (cEdges m)
+  have b2 := pblk_segParts (p0 := p0) (live := live) (lo := lo) (allowed := allowed) (covered := covered) (top := top) mf (cNData m + 1) (cEdges m)
     hnp (segJs m) (mf + 1) (allocA ps0).2.1 b0.sk b0.np (by omega)
-  obtain ⟨b3, _, _⟩ := pblk_alloc_eq (p0 := p0) (live := live) (lo := lo) (allowed := allowed) (covered := covered)
+  obtain ⟨b3, _, _⟩ := pblk_alloc_eq (p0 := p0) (live := live) (lo := lo) (allowed := allowed) (covered := covered) (top := top)
     (segPartsA mf (cNData m + 1) (cEdges m) (allocA ps0).2.1 (segJs m)).2 b2.sk b2.np
-  have bw4 := pblk_write (p0 := p0) (live := live) (lo := lo) (allowed := allowed) (covered := covered) b3.sk b3.np
+  have bw4 := pblk_write (p0 := p0) (live := live) (lo := lo) (allowed := allowed) (covered := covered) (top := top) b3.sk b3.np
     (.segPart mf (cNData m) (cNData m + 1) (cEdges m))
     (allocA (segPartsA mf (cNData m + 1) (cEdges m) (allocA ps0).2.1 (segJs m)).2).2.2 ⟨hnp, by omega⟩
-  have bs := pblk_sync (p0 := p0) (live := live) (lo := lo) (allowed := allowed) (covered := covered) b3.sk b3.np
+  have bs := pblk_sync (p0 := p0) (live := live) (lo := lo) (allowed := allowed) (covered := covered) (top := top) b3.sk b3.np
   have hall := ((((b0.append bw1).append b2).append b3).append bw4).append bs
   refine ⟨by simp [segA, hk0], mf + 1 + (segJs m).length + 1, ?_⟩
   have hk : (allocA ps0).2.2 = mf := hk0
@@ -195,7 +195,7 @@ theorem pblk_treeA (cfg : Cfg) (m : Mem) (vol : PImg) (ps : PS) (nd : Nat) (hsk 
     (hnp : min ps.bm ps.pm.nextPage = nd) (hpos : 0 < nd) (hlive : live = m.proot) (hvol : vol.trees = p0.trees)
     (hns : NoSplit cfg m vol) (hprops : ∀ q ∈ cProps m, q ∈ allowed) (hcov0 : live = 0 → covered = [])
     (htree : live ≠ 0 → ∃ t, treeFind p0 live = some t ∧ TreeOK allowed covered t) :
-    ∃ nd' effs, PBlk p0 live allowed covered lo nd ps (treeA cfg m vol ps).1 effs nd' (treeA cfg m vol ps).2.1 ∧
+    ∃ nd' effs, PBlk p0 live allowed covered top lo nd ps (treeA cfg m vol ps).1 effs nd' (treeA cfg m vol ps).2.1 ∧
       (∀ e ∈ effs, TreeE e) ∧
       (cProps m = [] → (treeA cfg m vol ps).2.2 = (m.proot, m.ptop) ∧ effs = []) ∧
       (cProps m ≠ [] → (treeA cfg m vol ps).2.2.1 ≠ 0 ∧ (treeA cfg m vol ps).2.2.2 = false ∧
@@ -203,7 +203,7 @@ theorem pblk_treeA (cfg : Cfg) (m : Mem) (vol : PImg) (ps : PS) (nd : Nat) (hsk 
           ∃ t, treeFind (applyEffs effs p) (treeA cfg m vol ps).2.2.1 = some t ∧ TreeOK allowed (covered ++ cProps m) t) := by
   by_cases hp : cProps m = []
   · refine ⟨nd, [], ?_, by simp, fun _ => ⟨by simp [treeA, hp], rfl⟩, fun h => absurd hp h⟩
-    simpa [treeA, hp] using PBlk.nil (live := live) (lo := lo) (allowed := allowed) (covered := covered) hsk hnp
+    simpa [treeA, hp] using PBlk.nil (live := live) (lo := lo) (allowed := allowed) (covered := covered) (top := top) hsk hnp
   · have hpe : (cProps m).isEmpty = false := by
       cases h : cProps m with
       | nil => exact absurd h hp
@@ -211,15 +211,15 @@ theorem pblk_treeA (cfg : Cfg) (m : Mem) (vol : PImg) (ps : PS) (nd : Nat) (hsk 
     by_cases hr : m.proot = 0
     · -- a new tree
       have hl0 : live = 0 := by rw [hlive, hr]
-      obtain ⟨ba, hpid, _⟩ := pblk_alloc_eq (p0 := p0) (live := live) (lo := lo) (allowed := allowed) (covered := covered) ps hsk hnp
+      obtain ⟨ba, hpid, _⟩ := pblk_alloc_eq (p0 := p0) (live := live) (lo := lo) (allowed := allowed) (covered := covered) (top := top) ps hsk hnp
       have hrne : (allocA ps).2.2 ≠ live := by rw [hpid, hl0]; omega
-      have bn := pblk_write (p0 := p0) (live := live) (lo := lo) (allowed := allowed) (covered := covered) ba.sk ba.np
+      have bn := pblk_write (p0 := p0) (live := live) (lo := lo) (allowed := allowed) (covered := covered) (top := top) ba.sk ba.np
         (.treeNew (allocA ps).2.2) (allocA ps).2.2 ⟨hrne, by rw [hpid]; omega⟩
       have hcap : ([] : List Nat).length + (cProps m).length ≤ cfg.leafCap := by
         have := hns
         simp only [NoSplit, liveLeafLen, hr, if_true] at this
         simpa using this
-      obtain ⟨bs, hres⟩ := pblk_sink (p0 := p0) (live := live) (lo := lo) (allowed := allowed) (covered := covered) cfg (cProps m) (nd + 1)
+      obtain ⟨bs, hres⟩ := pblk_sink (p0 := p0) (live := live) (lo := lo) (allowed := allowed) (covered := covered) (top := top) cfg (cProps m) (nd + 1)
         (allocA ps).2.1 (emptyTree (allocA ps).2.2) [] (allocA ps).2.2 ba.sk ba.np (leaf1_empty _) hcap (Or.inl hrne)
       have hall := (ba.append bn).append bs
       refine ⟨_, _, by simpa [treeA, treeStartA, hpe, hr] using hall, ?_, fun h => absurd h hp, fun _ => ⟨?_, ?_, ?_⟩⟩
@@ -267,7 +267,7 @@ theorem pblk_treeA (cfg : Cfg) (m : Mem) (vol : PImg) (ps : PS) (nd : Nat) (hsk 
           rw [hvol, ← hlive]; exact hf0
         simp only [NoSplit, liveLeafLen, hr, if_false, hfv, hlv] at this
         simpa using this
-      obtain ⟨bs, hres⟩ := pblk_sink (p0 := p0) (live := live) (lo := lo) (allowed := allowed) (covered := covered) cfg (cProps m) nd
+      obtain ⟨bs, hres⟩ := pblk_sink (p0 := p0) (live := live) (lo := lo) (allowed := allowed) (covered := covered) (top := top) cfg (cProps m) nd
         ps t0 xs0 pid0 hsk hnp hl1 hcap (Or.inr ⟨hsrt, hal, fun q hq => (hcv q hq).1, hprops⟩)
       refine ⟨_, _, by simpa [treeA, treeStartA, hpe, hr, hfind] using bs, sinkEffs_treeE _ _ _ _, fun h => absurd h hp,
         fun _ => ⟨?_, ?_, ?_⟩⟩
@@ -354,7 +354,7 @@ theorem pages_post {cfg : Cfg} {T : List Tx} {fs : FS} {m : Mem} {cs : List CTx}
     unfold frontier; omega
   have hmfe : min (m.ps fs.pv).bm (m.ps fs.pv).pm.nextPage = min m.bm m.pm.nextPage := rfl
   rw [hmfe] at hnp0
-  obtain ⟨hk0, nd1, bseg⟩ := pblk_segA (p0 := fs.pd) (live := m.proot) (lo := frontier fs.pd) (allowed := allProps T) (covered := covered) m (m.ps fs.pv) hsk0 hnp0
+  obtain ⟨hk0, nd1, bseg⟩ := pblk_segA (p0 := fs.pd) (live := m.proot) (lo := frontier fs.pd) (allowed := allProps T) (covered := covered) (top := top) m (m.ps fs.pv) hsk0 hnp0
   rw [hmfe] at hk0 bseg
   have hprops : ∀ q ∈ cProps m, q ∈ allProps T := by
     intro q hq
@@ -368,11 +368,11 @@ theorem pages_post {cfg : Cfg} {T : List Tx} {fs : FS} {m : Mem} {cs : List CTx}
     unfold frontier at *
     omega
   obtain ⟨nd2, teffs, btree, hTE, hcase1, hcase2⟩ :=
-    pblk_treeA (p0 := fs.pd) (live := m.proot) (lo := frontier fs.pd) (allowed := allProps T) (covered := covered) cfg m fs.pv (segA m (m.ps fs.pv)).2.1 nd1
+    pblk_treeA (p0 := fs.pd) (live := m.proot) (lo := frontier fs.pd) (allowed := allProps T) (covered := covered) (top := top) cfg m fs.pv (segA m (m.ps fs.pv)).2.1 nd1
       bseg.sk bseg.np hpos rfl (by rw [hpv]) hns hprops (by rw [hlive]; exact hc2) (by rw [hlive]; exact hc3)
-  obtain ⟨ba, _, hef⟩ := pblk_alloc_eq (p0 := fs.pd) (live := m.proot) (lo := frontier fs.pd) (allowed := allProps T) (covered := covered)
+  obtain ⟨ba, _, hef⟩ := pblk_alloc_eq (p0 := fs.pd) (live := m.proot) (lo := frontier fs.pd) (allowed := allProps T) (covered := covered) (top := top)
     (treeA cfg m fs.pv (segA m (m.ps fs.pv)).2.1).2.1 btree.sk btree.np
-  have bw := pblk_write (p0 := fs.pd) (live := m.proot) (lo := frontier fs.pd) (allowed := allProps T) (covered := covered) ba.sk ba.np .stats
+  have bw := pblk_write (p0 := fs.pd) (live := m.proot) (lo := frontier fs.pd) (allowed := allProps T) (covered := covered) (top := top) ba.sk ba.np .stats
     (allocA (treeA cfg m fs.pv (segA m (m.ps fs.pv)).2.1).2.1).2.2 trivial
   have hall := ((bseg.append btree).append ba).append bw
   have hacts : (pagesA cfg m fs.pv).1 = (((segA m (m.ps fs.pv)).1 ++ (treeA cfg m fs.pv (segA m (m.ps fs.pv)).2.1).1) ++
